@@ -1121,11 +1121,15 @@ func (e *Env) evalCall(n *Node) specVal {
 				e.fail("lastres(): literal result index")
 			}
 			rt := types.Type(types.Typ[types.UnsafePointer])
+			srt := "Int"
 			if len(args) == 3 {
-				// lastres(F, i, T): typed as *T
+				// lastres(F, i, T): typed as T (a pointer type, or error)
 				rt = e.resolveType(args[2])
+				if v.smt.sortOf(rt) == "Iface" {
+					srt = "Iface"
+				}
 			}
-			return specVal{t: v.heap(e.st, v.ghostKey(fmt.Sprintf("lastres!%s!%d", args[0].Name, i), "Int")), typ: rt, st: e.st}
+			return specVal{t: v.heap(e.st, v.ghostKey(fmt.Sprintf("lastres!%s!%d", args[0].Name, i), srt)), typ: rt, st: e.st}
 		case "transmitted":
 			// transmitted(m): message object m was handed to TransmitMessage during this call
 			x := e.eval(args[0])
